@@ -31,8 +31,8 @@ func init() {
 	harness.Register(&harness.Property{
 		ID: "C17", Run: runC17, Oracle: oracleC17,
 		Rule: "cases: trees returned by the parser for generator sentences, corpus files and mutants (with Bad nodes), statement lists for the *Many variants, and a synthetic instance of each node struct of ast/ast.go " +
-			"with a pseudo-random subset of node-typed fields populated (interfaces by a random implementer, slices of length 0-3). Oracle: a recording visitor (Visit/VisitMany/Field/Index) against reflection over exported fields: " +
-			"same nodes, once each, pre-order, siblings in declaration order, the Field/Index trail equals the reflection path; a drawn pruning set skips exactly those subtrees (Walk and Inspect); Preorder consumed for k items yields the first k and stops. " +
+			"with a pseudo-random subset of node-typed fields populated (interfaces by a random implementer, slices of length 0-3; also root slices of 64-1025 elements), trees with one list of 3-1100 elements (18 source forms) or a 100-1000 operand chain. Oracle: a recording visitor (Visit/VisitMany/Field/Index) against reflection over exported fields: " +
+			"same nodes, once each, pre-order, siblings in declaration order, the Field/Index trail equals the reflection path; a drawn pruning set skips exactly those subtrees (Walk and Inspect); one Preorder sequence value ranged in full, then for k items (yields the first k and stops), then in full again; an unpruned Inspect after the pruned one. " +
 			"Non-trivial = tree with >=5 nodes and >=1 pruned internal node or an early exit 0<k<total; distinct by (tree hash, pruning set, k).",
 	})
 	harness.Register(&harness.Property{
@@ -40,7 +40,7 @@ func init() {
 		Rule: "cases: (1) the repository's generators are run on the current ast/ast.go and their output is compared byte for byte with ast/pos.go and ast/walk_internal.go; " +
 			"(2) for every node of parsed trees (generator, corpus, mutants) and for synthetic instances of every node struct with random position fields (valid and invalid) and random optional children: " +
 			"node.Pos()/End(), the repository's poslang interpreter on the documented expression, and an independent interpreter (internal/posx, own extraction of the '// pos =' lines) must agree; " +
-			"(3) per node type, ast.Walk must enumerate exactly the node-typed fields in declaration order. Non-trivial = node whose expression has a choice ('??', '||') or an offset; distinct by (type, pos/end, chosen alternative).",
+			"(3) per node type, ast.Walk must enumerate exactly the node-typed fields in declaration order, and the traversal of every tree looked at (incl. lists of up to 1100 elements) equals C17's reflection model. Non-trivial = node whose expression has a choice ('??', '||') or an offset; distinct by (type, pos/end, chosen alternative).",
 		Assumptions: []string{"the poslang interpreter is only compared on nodes where it does not panic on a nil required child (synthetic instances may leave required children nil; the compiled methods and posx are nil-safe)"},
 	})
 }
